@@ -429,6 +429,8 @@ def frame_init(df):
         first = "true"
     elif it == "dicts":
         first = "false"
+    elif isinstance(rows.generators[0].iter, ast.Name):
+        first = "true"  # a local name: which records it stands for is `c02.dataframe.init_source` (frameSourceSegs)
     else:
         raise Shape("rows source %s" % it)
     ifs = rows.generators[0].ifs
@@ -469,6 +471,140 @@ def frame_init(df):
     if other is None:
         raise Shape("row factory of the rows branch")
     return {"schema": "true", "keys": "true", "cell": cell_ok, "first": first, "kept": kept, "t_dicts": t_dicts, "t_rows": other}
+
+
+def _segs(node, local):
+    """The records an expression iterates over, as segments: `first` (the record taken off with next()), `rest`
+    (what the iterator `dicts` still has), `again` (a NEW iteration of the caller's object `dictionaries`)."""
+    u = ast.unparse(node)
+    if isinstance(node, ast.Name) and node.id in local:
+        return local[node.id]
+    if u == "dicts":
+        return ".rest"
+    if u in ("dictionaries", "iter(dictionaries)"):
+        return ".again"
+    if u in ("[first_dict]", "(first_dict,)"):
+        return ".first"
+    if isinstance(node, ast.Call) and ast.unparse(node.func) in ("list", "tuple", "iter") and len(node.args) == 1 and not node.keywords:
+        return _segs(node.args[0], local)
+    if isinstance(node, ast.Call) and ast.unparse(node.func) in ("chain", "itertools.chain") and not node.keywords:
+        out = []
+        for a in node.args:
+            x = _segs(a, local)
+            if not isinstance(x, str):
+                raise Shape("conditional source inside chain")
+            out += [y for y in x.split(", ") if y]
+        return ", ".join(out)
+    if isinstance(node, ast.BinOp) and isinstance(node.op, ast.Add):
+        a, b = _segs(node.left, local), _segs(node.right, local)
+        if isinstance(a, str) and isinstance(b, str):
+            return ", ".join([y for y in (a + ", " + b).split(", ") if y])
+    raise Shape("rows source %s" % u[:50])
+
+
+def frame_source(df):
+    """The source of the row comprehension of `DataFrame(dictionaries)`, as a function of "the caller's object is
+    its own iterator" (`dicts is dictionaries`): a Lean term `fun selfIter => [segments]`."""
+    fn = df.func("__init__", "DataFrame")
+    top = [st for st in fn.body if isinstance(st, ast.If) and ast.unparse(st.test) == "dictionaries is not None"]
+    if not top:
+        raise Shape("if dictionaries is not None")
+    local, rows = {}, None
+    for st in top[0].body:
+        if isinstance(st, ast.Assign) and len(st.targets) == 1 and ast.unparse(st.targets[0]) == "self._rows":
+            rows = st.value
+            break
+        if isinstance(st, ast.Assign) and len(st.targets) == 1 and isinstance(st.targets[0], ast.Name):
+            name = st.targets[0].id
+            if name in ("dicts", "first_dict", "keys"):
+                continue
+            try:
+                local[name] = _segs(st.value, local)
+            except Shape:
+                local.pop(name, None)
+        elif isinstance(st, ast.If):
+            t = ast.unparse(st.test)
+            if t in ("dicts is dictionaries", "dictionaries is dicts", "iter(dictionaries) is dictionaries"):
+                pos, neg = st.body, st.orelse
+            elif t in ("dicts is not dictionaries", "dictionaries is not dicts"):
+                pos, neg = st.orelse, st.body
+            else:
+                continue
+
+            def assigned(stmts):
+                d = {}
+                for s0 in stmts:
+                    if isinstance(s0, ast.Assign) and len(s0.targets) == 1 and isinstance(s0.targets[0], ast.Name):
+                        d[s0.targets[0].id] = s0.value
+                return d
+
+            a, b = assigned(pos), assigned(neg)
+            for name in set(a) & set(b):
+                x, y = _segs(a[name], local), _segs(b[name], local)
+                if not (isinstance(x, str) and isinstance(y, str)):
+                    raise Shape("nested conditional source")
+                local[name] = ("cond", x, y)
+    if not (isinstance(rows, ast.ListComp) and len(rows.generators) == 1):
+        raise Shape("rows comprehension")
+    r = _segs(rows.generators[0].iter, local)
+    if isinstance(r, tuple):
+        return "if selfIter then [%s] else [%s]" % (r[1], r[2])
+    return "[%s]" % r
+
+
+PINNED_SOURCE = "[.first, .rest]"
+
+
+def record_guard(row):
+    """`Row.as_bytes`: the record-size guard `if <test>: raise DataError(…)` with the module's constants, and what
+    `record_size` measures."""
+    consts = {}
+    for name in ("HEADER_SIZE", "MAXIMUM_RECORD_SIZE"):
+        node = None
+        for st in row.tree.body:
+            if isinstance(st, ast.AnnAssign) and isinstance(st.target, ast.Name) and st.target.id == name:
+                node = st.value
+            elif isinstance(st, ast.Assign) and len(st.targets) == 1 and ast.unparse(st.targets[0]) == name:
+                node = st.value
+        if node is None:
+            raise Shape("constant %s" % name)
+        consts[name] = to_lean(node, {})
+    fn = row.func("as_bytes", "Row")
+    assigns, guard = {}, None
+    for st in fn.body:
+        if isinstance(st, ast.Assign) and len(st.targets) == 1:
+            assigns[ast.unparse(st.targets[0])] = ast.unparse(st.value)
+        if isinstance(st, ast.If) and any(isinstance(x, ast.Raise) for x in st.body):
+            if guard is not None or st.orelse or len(st.body) != 1:
+                raise Shape("one size guard")
+            guard = st.test
+    if guard is None:
+        raise Shape("if …: raise DataError")
+    if assigns.get("record_size") != "len(record_bytes)" or not assigns.get("record_bytes", "").startswith("packb(tuple(self)"):
+        raise Shape("record_size = len(packb(tuple(self), …))")
+    env = {"record_size": "recordSize", "len(record_bytes)": "recordSize", "MAXIMUM_RECORD_SIZE": "maximumRecordSize",
+           "HEADER_SIZE": "headerSize"}
+    return [consts["HEADER_SIZE"], consts["MAXIMUM_RECORD_SIZE"], to_lean(guard, env)]
+
+
+PINNED_GUARD = ["14", "((16 * 1024) * 1024)", "(recordSize > maximumRecordSize)"]
+
+
+def append_sizes(df):
+    """`DataFrame.append`: is the new row sized (`new_row.nbytes()`, which packs it and applies the record guard)
+    before it is stored?  A row that cannot be sized is then not kept."""
+    fn = df.func("append", "DataFrame")
+    sized_at, stored_at = None, None
+    for i, st in enumerate(fn.body):
+        u = ast.unparse(st)
+        if "new_row.nbytes()" in u or "new_row.as_bytes" in u:
+            sized_at = i if sized_at is None else sized_at
+        if "self._rows.append(" in u:
+            stored_at = i
+    if stored_at is None:
+        raise Shape("self._rows.append")
+    return "true" if sized_at is not None and sized_at < stored_at else "false"
+
 
 
 PINNED_FRAME = {"schema": "true", "keys": "true", "cell": "true", "first": "true", "kept": "true",
@@ -673,10 +809,15 @@ def append_refresh(df):
     for st in fn.body:
         if isinstance(st, ast.If) and ast.unparse(st.test) == "isinstance(self._schema, RelationSchema)":
             seen_validate = False
+            local = {}
             for s0 in st.body:
                 u = ast.unparse(s0)
                 if "validate(" in u and not isinstance(s0, ast.If):
                     seen_validate = True
+                    continue
+                if (isinstance(s0, ast.Assign) and len(s0.targets) == 1 and isinstance(s0.targets[0], ast.Name)
+                        and "_row_factory" not in u):
+                    local[s0.targets[0].id] = s0.value  # e.g. `fields = tuple(str(c.name) for c in self._schema.columns)`
                     continue
                 if isinstance(s0, ast.If) and "_row_factory" in ast.unparse(s0.test):
                     t = s0.test
@@ -687,20 +828,33 @@ def append_refresh(df):
                         a, b = b, a
                     if ast.unparse(a) != "self._row_factory._fields":
                         raise Shape("refresh test")
+                    b_name = b.id if isinstance(b, ast.Name) else None
+                    if b_name in local:
+                        b = local[b_name]
                     route = _names_route(b, "self._schema")
-                    if s0.orelse or [ast.unparse(x) for x in s0.body] != ["self._row_factory = Row.create_class(self._schema)"]:
+                    body = [ast.unparse(x) for x in s0.body]
+                    if s0.orelse:
+                        raise Shape("refresh body")
+                    if body == ["self._row_factory = Row.create_class(self._schema)"]:
+                        fresh = "true"   # a NEW class; the rows built so far keep theirs
+                    elif b_name is not None and body == ["self._row_factory._fields = %s" % b_name] or (
+                            len(s0.body) == 1 and isinstance(s0.body[0], ast.Assign)
+                            and ast.unparse(s0.body[0].targets[0]) == "self._row_factory._fields"
+                            and _names_route(s0.body[0].value, "self._schema") == route):
+                        fresh = "false"  # the names are written onto the EXISTING class, which the earlier rows share
+                    else:
                         raise Shape("refresh body")
                     if not seen_validate:
                         raise Shape("refresh before validation")
-                    return ["true", route]
+                    return ["true", route, fresh]
                 if "_row_factory" in u:
                     raise Shape("row factory statement %s" % u[:40])
-            return ["false", "columns"]
+            return ["false", "columns", "true"]
     raise Shape("if isinstance(self._schema, RelationSchema)")
 
 
 PINNED_SCHEMA = {"names": ["false", "true"], "iter": "columns", "class": "iter", "validate": "columns", "frame": "columns",
-                 "refresh": ["true", "columns"]}
+                 "refresh": ["true", "columns", "true"]}
 
 
 def schema_routes(sch, row, df):
@@ -717,6 +871,9 @@ PINNED = {
     "c02.row.get": ["true", "index"],
     "c02.dataframe.init_dictionaries": PINNED_FRAME,
     "c02.dataframe.append": ["true", "true", "true"],
+    "c02.dataframe.init_source": PINNED_SOURCE,
+    "c02.row.record_guard": PINNED_GUARD,
+    "c02.dataframe.append_sizes": "true",
     "c02.schema.routes": PINNED_SCHEMA,
 }
 
@@ -735,6 +892,9 @@ def generate(o):
     gt = o.item("c02.row.get", lambda: row_get(row), PINNED["c02.row.get"])
     fr = o.item("c02.dataframe.init_dictionaries", lambda: frame_init(df), PINNED["c02.dataframe.init_dictionaries"])
     ap = o.item("c02.dataframe.append", lambda: frame_append(df), PINNED["c02.dataframe.append"])
+    sg = o.item("c02.dataframe.init_source", lambda: frame_source(df), PINNED["c02.dataframe.init_source"])
+    rg = o.item("c02.row.record_guard", lambda: record_guard(row), PINNED["c02.row.record_guard"])
+    az = o.item("c02.dataframe.append_sizes", lambda: append_sizes(df), PINNED["c02.dataframe.append_sizes"])
     sig = {"as_map": "List (String × α)", "as_dict": "List (String × α)", "values": "List α", "keys": "List String",
            "as_json": "List (String × α)"}
     doc = {"as_json": "/-- the object `as_json` serialises: first argument of `orjson.dumps` -/\n"}
@@ -743,7 +903,7 @@ def generate(o):
           "`create_class` (orso/row.py) and the dictionary constructor / `append` of orso/dataframe.py, lifted from the\n"
           "source (harness/extractors/c02.py).  Model/DictRowCode.lean assembles them; Props/C02.lean proves the\n"
           "assembled code equal to the specification functions of Model/DictRow.lean. -/\n")
-    t += "set_option linter.unusedVariables false\nnamespace Gen.DictCode\nopen DictRow (ofPairs View)\n\n"
+    t += "set_option linter.unusedVariables false\nnamespace Gen.DictCode\nopen DictRow (ofPairs View Seg)\n\n"
     t += "/-! ### compiled.pyx — extract_dict_columns -/\n"
     t += "/-- number of iterations: `range(num_fields)` with `num_fields = len(fields)` -/\n"
     t += "def loopCount (lenFields : Int) : Int := %s\n" % lp["count"]
@@ -816,6 +976,18 @@ def generate(o):
     t += "def appendStoresNewRow : Bool := %s\n" % ap[1]
     t += "/-- `if isinstance(entry, MutableMapping) and type(entry) is not dict: entry = dict(entry)` -/\n"
     t += "def appendCopiesSubclass : Bool := %s\n" % ap[2]
+    t += "\n/-! ### dataframe.py — how the constructor walks the caller's sequence of dictionaries -/\n"
+    t += "/-- the source of the row comprehension (`for row in chain([first_dict], dicts)`), as a function of \"the caller's object\n"
+    t += "is its own iterator\" (`dicts is dictionaries`): `first` = the record `next(dicts)` took off, `rest` = what the iterator\n"
+    t += "`dicts` still has, `again` = a NEW iteration of the caller's object -/\n"
+    t += "def frameSourceSegs (selfIter : Bool) : List Seg := %s\n" % sg
+    t += "\n/-! ### row.py — the record-size guard of `as_bytes`, reached from `append` through `nbytes` -/\n"
+    t += "def headerSize : Int := %s\n" % rg[0]
+    t += "def maximumRecordSize : Int := %s\n" % rg[1]
+    t += "/-- `if record_size > MAXIMUM_RECORD_SIZE: raise DataError(…)` with `record_size = len(packb(tuple(self), …))` -/\n"
+    t += "def recordRefused (recordSize : Int) : Bool := decide %s\n" % rg[2]
+    t += "/-- `row_size = new_row.nbytes()` stands before `self._rows.append(new_row)` -/\n"
+    t += "def appendSizesRowFirst : Bool := %s\n" % az
     t += "end Gen.DictCode\n"
     o.files["DictCode.lean"] = t
     sch = Src("orso/schema.py")
@@ -847,5 +1019,8 @@ def generate(o):
     s += "/-- `DataFrame.append`: `if self._row_factory._fields != <names>: self._row_factory = Row.create_class(self._schema)` -/\n"
     s += "def appendRefreshesFactory : Bool := %s\n" % rt["refresh"][0]
     s += "def appendRefreshVia : Via := .%s\n" % rt["refresh"][1]
+    s += "/-- … and the factory re-made is a NEW class (`self._row_factory = Row.create_class(…)`), not new names written onto the\n"
+    s += "class the rows built so far are instances of (`self._row_factory._fields = …`) -/\n"
+    s += "def appendRefreshMakesNewClass : Bool := %s\n" % (rt["refresh"] + ["true"])[2]
     s += "end Gen.SchemaCode\n"
     o.files["SchemaCode.lean"] = s
